@@ -530,10 +530,6 @@ func (d *dm) refreshAndCheck(where string, faulty bool) {
 
 // ---- C13: fault states, transient faults, repairs ------------------------------------
 
-func init() {
-	All["c13"] = func(r *core.Run) { dirmodel(r, dmConfig{faults: true}) }
-}
-
 // faultChange introduces or repairs one fault state, as root.
 func (d *dm) faultChange() {
 	src := d.r.Src
@@ -755,4 +751,132 @@ func (s *scanTracker) policy(t *sched.Task, op *sched.Op) sched.Decision {
 		return sched.Decision{}
 	}
 	return sched.Decision{Err: op.Faults[src.Intn(len(op.Faults))]}
+}
+
+// ---- C13: enumerated sweep of single fault placements ------------------------------------
+
+var c13DirFaults = []string{"missing", "notdir", "enotdir", "unreadable", "unsearchable", "ancestor-unsearchable"}
+var c13FileFaults = append(append([]string(nil), gen.Defects...), "unreadable", "dangling", "loop", "dirlink")
+
+func init() {
+	All["c13"] = func(r *core.Run) {
+		if r.Src.Intn(2) == 1 {
+			c13Sweep(r)
+			return
+		}
+		dirmodel(r, dmConfig{faults: true})
+	}
+	core.Enumerations["c13"] = func() [][]uint32 {
+		var out [][]uint32
+		nk := len(c13DirFaults) + len(c13FileFaults)
+		for kind := 0; kind < nk; kind++ {
+			for pos := 0; pos < 3; pos++ {
+				for uid := 0; uid < 2; uid++ {
+					for auto := 0; auto < 2; auto++ {
+						out = append(out, []uint32{1, uint32(kind), uint32(pos), uint32(uid), uint32(auto)})
+					}
+				}
+			}
+		}
+		return out
+	}
+}
+
+// c13Sweep places exactly one fault (every kind of bad directory or bad file)
+// at every position of a three-directory list whose other directories hold
+// valid files - one device is defined in all three - checks isolation,
+// reporting and the Refresh() result, then repairs the fault and checks that
+// its entry is gone at the next refresh.
+func c13Sweep(r *core.Run) {
+	src := r.Src
+	nk := len(c13DirFaults) + len(c13FileFaults)
+	kind := src.Intn(nk)
+	pos := src.Intn(3)
+	uid := src.Intn(2)
+	auto := src.Intn(2) == 1
+	cred := memfs.Cred{}
+	if uid == 1 {
+		cred = memfs.Cred{UID: 1000, GID: 1000}
+	}
+	fault := ""
+	isDir := kind < len(c13DirFaults)
+	if isDir {
+		fault = c13DirFaults[kind]
+	} else {
+		fault = c13FileFaults[kind-len(c13DirFaults)]
+	}
+	if auto && (fault == "unreadable" || fault == "unsearchable" || fault == "ancestor-unsearchable") {
+		auto = false // permission changes raise no event a watcher could see (corrections log)
+	}
+	r.Knob("mode", "sweep")
+	r.Knob("auto_refresh", auto)
+	e := newEnv(r, sched.Config{SwitchDen: 4}, cred)
+	d := &dm{env: e, cfg: dmConfig{faults: true}, auto: auto}
+	d.dirs = []string{"/etc/cdi", "/run/cdi", "/opt/vendor/cdi"}
+	r.Notef("sweep: fault %q at position %d of %v, uid %d, auto=%v", fault, pos, d.dirs, cred.UID, auto)
+	p := e.admin
+	for i, dir := range d.dirs {
+		p.MkdirAll(dir, 0o755)
+		own := e.reg.Valid(src, true, gen.Opts{Vendors: []string{fmt.Sprintf("v%d.com", i)}, Classes: []string{"gpu"}, DevNames: []string{"own"}, MaxDevs: 1})
+		p.WriteFile(dir+"/own.json", own.Content, 0o644)
+		shared := e.reg.Valid(src, false, gen.Opts{Vendors: []string{"shared.org"}, Classes: []string{"net"}, DevNames: []string{"dev0"}, MaxDevs: 1})
+		p.WriteFile(dir+"/shared.yaml", shared.Content, 0o644)
+	}
+	bad := d.dirs[pos]
+	badFile := bad + "/bad.json"
+	var repair func()
+	switch fault {
+	case "missing":
+		p.RemoveAll(bad)
+		repair = func() { p.MkdirAll(bad, 0o755) }
+	case "notdir":
+		p.RemoveAll(bad)
+		p.WriteFile(bad, []byte("x"), 0o644)
+		repair = func() { p.Unlink(memfs.AT_FDCWD, bad); p.MkdirAll(bad, 0o755) }
+	case "enotdir":
+		anc := filepath.Dir(bad)
+		p.RemoveAll(anc)
+		p.WriteFile(anc, []byte("x"), 0o644)
+		repair = func() { p.Unlink(memfs.AT_FDCWD, anc); p.MkdirAll(bad, 0o755) }
+	case "unreadable":
+		if isDir {
+			p.Chmod(bad, 0)
+			repair = func() { p.Chmod(bad, 0o755) }
+		} else {
+			m := e.reg.Valid(src, true, gen.Opts{Vendors: []string{"bad.io"}, Classes: []string{"x"}, DevNames: []string{"d"}, MaxDevs: 1})
+			p.WriteFile(badFile, m.Content, 0o644)
+			p.Chmod(badFile, 0)
+			repair = func() { p.Chmod(badFile, 0o644) }
+		}
+	case "unsearchable":
+		p.Chmod(bad, 0o444)
+		repair = func() { p.Chmod(bad, 0o755) }
+	case "ancestor-unsearchable":
+		anc := filepath.Dir(bad)
+		p.Chmod(anc, 0o644)
+		repair = func() { p.Chmod(anc, 0o755) }
+	case "dangling":
+		p.Symlink("/nonexistent/x.json", badFile)
+		repair = func() { p.Unlink(memfs.AT_FDCWD, badFile) }
+	case "loop":
+		p.Symlink("bad.json", badFile)
+		repair = func() { p.Unlink(memfs.AT_FDCWD, badFile) }
+	case "dirlink":
+		p.MkdirAll("/staging/adir", 0o755)
+		p.Symlink("/staging/adir", badFile)
+		repair = func() { p.Unlink(memfs.AT_FDCWD, badFile) }
+	default: // an invalid file of this kind
+		m := e.reg.Invalid(src, fault)
+		p.WriteFile(badFile, m.Content, 0o644)
+		repair = func() { p.Unlink(memfs.AT_FDCWD, badFile) }
+	}
+	e.do("NewCache", func() {
+		c, _ := cdi.NewCache(cdi.WithSpecDirs(d.dirs...), cdi.WithAutoRefresh(auto))
+		e.cache = c
+	})
+	d.refreshPoint("with the fault in place")
+	repair()
+	r.Notef("repaired")
+	d.refreshPoint("after the repair")
+	r.State(fmt.Sprintf("sweep|%s|%d|%d|%v", fault, pos, uid, auto))
 }
